@@ -26,7 +26,13 @@
 //!         asynchronous persistence with blocked completion actions and pending claims), the manager written and the node
 //!         restarted from the bytes at every cut point, each run compared with the run of the same script in which the
 //!         node is only disconnected and reconnected: same payment events at every node, same observable end state;
-//!         the per-channel ChannelConfig must survive every reload.
+//!         the per-channel ChannelConfig must survive every reload.  The deep dump also carries the hand-serialized
+//!         POSITIONAL per-channel state (announced ChannelUpdateStatus, announcement-sigs state, channel state flags, resend
+//!         order, pending / holding-cell fee update, every inbound / outbound HTLC with its state, holding-cell entries),
+//!         compared modulo the pinned normalisation (`canon_chan_lines`, mirror of Props/C12 `enumCanon`); a gossip
+//!         scenario (peer away for > DISABLE_GOSSIP_TICKS ticks, back for > ENABLE_GOSSIP_TICKS ticks, a short outage) writes
+//!         all four ChannelUpdateStatus values and compares the sequence of broadcast channel_updates (disabled flag) of the
+//!         reloaded run with the un-reloaded one.
 //!
 //! Op lines for the Lean driver (the model knows ONLY the (type, kind) list of the block, regenerated from the
 //! Rust source by tools/gen_tlv_schemas.py; payloads are opaque):
@@ -1244,7 +1250,7 @@ fn rare_states(seed: u64, st: &mut St, ctx: &mut Ctx) {
 				let rel = match guarded(AssertUnwindSafe(|| run_script(sc, Some((k, x, true)), ctx, &mut added))) { Ok(o) => o, Err(p) => { ctx.fail(format!("rare-state scenario {}: run with node {} written and reloaded before act {} ({:?}) panicked: {}", sc.name, x, k, sc.acts[k], p.chars().take(300).collect::<String>())); continue; } };
 				st.n_rare_runs += 2; st.n_rare_cuts += 1;
 				for s in &rel.states { st.mon_states.insert(format!("rare:{}", s)); }
-				let at = format!("scenario `{}`: node {} written and reloaded before act #{} {:?} (acts so far: {})", sc.name, x, k, sc.acts[k], sc.acts[..k].iter().filter(|a| !matches!(a, Act::Micro)).map(|a| format!("{:?}", a)).collect::<Vec<_>>().join(", "));
+				let at = format!("scenario `{}`: node {} written and reloaded before act #{} {:?} (acts so far: {})", sc.name, x, k, sc.acts[k], { let mut v: Vec<(String, usize)> = vec![]; for a in sc.acts[..k].iter().filter(|a| !matches!(a, Act::Micro)) { let t = format!("{:?}", a); match v.last_mut() { Some(l) if l.0 == t => l.1 += 1, _ => v.push((t, 1)) } } let n = v.len(); v.iter().skip(n.saturating_sub(14)).map(|(t, c)| if *c > 1 { format!("{} x{}", t, c) } else { t.clone() }).collect::<Vec<_>>().join(", ") });
 				let family = sc.name.split(" amt=").next().unwrap_or("").to_string();
 				if let Some(p) = &rel.problem { ctx.fail_once(&format!("rare-deep:{}", family), format!("{}: {}", at, p)); }
 				let mut diffs = vec![];
@@ -1413,6 +1419,6 @@ fn main() {
 	rec.notes.insert("states_reached".into(), st.mon_states.iter().cloned().collect::<Vec<_>>().join(","));
 	rec.notes.insert("stats".into(), stats.join(" "));
 	rec.notes.insert("not_covered".into(), "OutputSweeper (needs an async KVStore + wallet set-up; its TLV blocks are in the generated schema list only); ChannelManager malformed-stream mutations (each needs a full node reload); the behavioural comparison original vs reloaded manager covers the scripted rare-state scenarios (payment events and end state), not the random schedules (there the reloaded node continues under the engine's own oracles); reloads always hand over the LATEST monitors (stale-monitor restarts are C10's subject), so in-flight updates / blocked completion actions / pending claims are written but resolved by the read; retry_strategy / attempts of a Retryable payment and timer_ticks of a claimable HTLC are declared non-persistent and masked".into());
-	rec.notes.insert("rare_states".into(), "scripts: {underpaid, overforwarded} x {claim, fail, blocks}, mpp2-underpaid-claim, mpp2-partial-timeout, mpp2-one-part-failed, holding-cell, async-persist-claim, async-persist-mpp2-underpaid; cut points = every effective act / micro-step (quick: all within two steps of a non-micro act + every third other one, the node(s) the neighbouring acts concern; thorough: all, every node); states written are listed in states_reached as rare:written:*".into());
+	rec.notes.insert("rare_states".into(), "scripts: {underpaid, overforwarded} x {claim, fail, blocks}, mpp2-underpaid-claim, mpp2-partial-timeout, mpp2-one-part-failed, holding-cell, async-persist-claim, async-persist-mpp2-underpaid, gossip-status (disable / enable staging, 12 extra ticks at the cut node in both runs because the staged tick counters are documented as not persisted); cut points = every effective act / micro-step (quick: all within two steps of a non-micro act + every third other one, the node(s) the neighbouring acts concern; thorough: all, every node); states written are listed in states_reached as rare:written:*".into());
 	rec.finish();
 }
